@@ -11,6 +11,7 @@ mod extract;
 mod gen_codes;
 mod gen_fsm;
 mod gen_kernels;
+mod gen_panics;
 mod gen_sasl;
 mod gen_txn;
 
@@ -55,6 +56,7 @@ fn main() {
     gen_fsm::generate(&mut src, &mut out);
     gen_sasl::generate(&mut src, &mut out);
     gen_txn::generate(&mut src, &mut out);
+    gen_panics::generate(&mut src, &mut out);
 
     for w in &out.written {
         println!("rs2lean: {}", w);
